@@ -47,6 +47,38 @@ func c12Observe(c c12Case) (got []string, err error, panicked string) {
 			return json.RawMessage(`{"definitions":{"x":{"title":"T"}}}`), nil
 		}})
 		return got, err, ""
+	case "chain":
+		// the $ref under test is the last hop of a parameter chain inside an imported document: the path item of
+		// the root is imported from the document at Base; its first parameter hops into another directory, its
+		// second one hops within the document (#/parameters/q -> #/parameters/r) to a parameter that is the $ref
+		const elsewhere = "file:///zz/elsewhere/dir/params.json"
+		tgt := map[string]any{"name": "n", "in": "query", "type": "string", "definitions": map[string]any{"x": map[string]any{"name": "x", "in": "query", "type": "string"}}}
+		mid := map[string]any{
+			"parameters":  map[string]any{"first": map[string]any{"$ref": elsewhere + "#/parameters/p"}, "q": map[string]any{"$ref": "#/parameters/r"}, "r": map[string]any{"$ref": c.Ref}},
+			"paths":       map[string]any{"/x": map[string]any{"parameters": []any{map[string]any{"$ref": "#/parameters/first"}, map[string]any{"$ref": "#/parameters/q"}}}},
+			"definitions": map[string]any{"x": map[string]any{"name": "x-in-base", "in": "query", "type": "string"}},
+			"name":        "base-as-parameter", "in": "query", "type": "string",
+		}
+		root := map[string]any{"swagger": "2.0", "info": map[string]any{"title": "t", "version": "v"}, "paths": map[string]any{"/x": map[string]any{"$ref": c.Base + "#/paths/~1x"}}}
+		var sw spec.Swagger
+		if e := json.Unmarshal(mustJSON(root), &sw); e != nil {
+			return nil, e, ""
+		}
+		err = spec.ExpandSpec(&sw, &spec.ExpandOptions{RelativeBase: c12Root, PathLoader: func(p string) (json.RawMessage, error) {
+			pu, _ := url.Parse(p)
+			bu, _ := url.Parse(c.Base)
+			switch {
+			case sameURL(pu, bu):
+				return mustJSON(mid), nil
+			case p == c12Root:
+				return mustJSON(root), nil
+			case p == elsewhere:
+				return json.RawMessage(`{"parameters":{"p":{"name":"elsewhere","in":"query","type":"string"}}}`), nil
+			}
+			got = append(got, p)
+			return mustJSON(tgt), nil
+		}})
+		return got, err, ""
 	default:
 		mid := map[string]any{"definitions": map[string]any{"m": map[string]any{"title": "M", "properties": map[string]any{"p": map[string]any{"$ref": c.Ref}}}, "x": map[string]any{"title": "X-in-base"}}}
 		root := map[string]any{"swagger": "2.0", "info": map[string]any{"title": "t", "version": "v"}, "paths": map[string]any{},
@@ -104,7 +136,7 @@ func oracleC12(c c12Case) *vstat.Failure {
 	}
 	selfRef := sameURL(want, b)
 	switch {
-	case selfRef && c.Via == "expand":
+	case selfRef && c.Via != "resolve":
 		// the $ref designates the containing document: nothing else may be requested
 		if len(got) != 0 {
 			f.Add("WRONG-DOCUMENT", c.Ref, "$ref %q in document %s designates that document itself, yet the loader was asked for %q", c.Ref, c.Base, got)
@@ -165,7 +197,7 @@ func TestC12(t *testing.T) {
 						excluded++
 						continue
 					}
-					for _, via := range []string{"resolve", "expand"} {
+					for _, via := range []string{"resolve", "expand", "chain"} {
 						c := c12Case{Base: base, Ref: ref, Via: via}
 						n++
 						if c12NonTrivial(ref) {
@@ -177,6 +209,24 @@ func TestC12(t *testing.T) {
 						verdict(t, "C12", "enumerated", c, oracleC12(c))
 					}
 				}
+			}
+		}
+	}
+	// absolute references with dot segments, over the same alphabet (up to 2 segments)
+	for i, rel := range rels {
+		if strings.Count(rel, "/") > 1 || i%nshards != shard {
+			continue
+		}
+		for _, pre := range []string{"http://o.example/", "https://o.example:8443/d/", "file:///abs/"} {
+			ref := pre + rel + "#/definitions/x"
+			if c12Excluded(ref) {
+				continue
+			}
+			for _, via := range []string{"resolve", "expand", "chain"} {
+				c := c12Case{Base: c12Bases[i%len(c12Bases)], Ref: ref, Via: via}
+				n++
+				r.NonTrivial([]byte(c.Base+" "+ref+" "+via), nil)
+				verdict(t, "C12", "enumerated-absolute", c, oracleC12(c))
 			}
 		}
 	}
@@ -197,7 +247,8 @@ func TestC12(t *testing.T) {
 		base := []string{"file:///r.json", "file:///d1/r.json", "file:///d1/d2/d3/r.json", "http://h.example/d1/r.json", "https://h.example:8443/a/b/r.json", "http://h.example/r.json", "file:///é/ü/r.json", "http://h.example/d%201/r.json"}[gen.Uniform(t, "base", 8)]
 		var ref string
 		if gen.Pct(t, "absolute", 15) {
-			ref = []string{"http://other.example/x/y.json", "HTTPS://Other.Example:443/x//y.json", "file:///abs/z.json", "http://h.example:80/d1/r.json", "File:///x/../y.json"}[gen.Uniform(t, "abs", 5)]
+			ref = []string{"http://other.example/x/y.json", "HTTPS://Other.Example:443/x//y.json", "file:///abs/z.json", "http://h.example:80/d1/r.json", "File:///x/../y.json",
+				"http://other.example/a/../y.json", "https://other.example/./x/./y.json", "http://other.example/a/b/../../c/y.json", "HTTP://other.example/%41/../y.json"}[gen.Uniform(t, "abs", 9)]
 		} else {
 			nseg := 1 + gen.Uniform(t, "nseg", 8)
 			parts := make([]string, nseg)
@@ -214,7 +265,7 @@ func TestC12(t *testing.T) {
 			r.Excluded("reference designating a directory (last segment . or .., trailing /)")
 			t.Skip("directory reference")
 		}
-		c := c12Case{Base: base, Ref: ref, Via: []string{"resolve", "expand"}[gen.Uniform(t, "via", 2)]}
+		c := c12Case{Base: base, Ref: ref, Via: []string{"resolve", "expand", "chain"}[gen.Uniform(t, "via", 3)]}
 		r.Eval()
 		r.Label("via=" + c.Via)
 		r.LabelIf(strings.Contains(ref, ".."), "contains ..")
